@@ -61,9 +61,9 @@ int main(int argc, char** argv)
             // C03: both entry points, outcome class and time only
             for (const char* entry : {"reader+accessors", "renderers"}) {
                 vh::set_context(json{{"entry", entry}, {"input", name}});
-                auto t0 = std::chrono::steady_clock::now();
+                long t0 = vh::cpu_ms();
                 json r = std::string(entry) == "renderers" ? render_all(bytes) : vr::reader_dump(bytes);
-                auto ms = std::chrono::duration_cast<std::chrono::milliseconds>(std::chrono::steady_clock::now() - t0).count();
+                long ms = vh::cpu_ms() - t0;
                 std::string fin = r["fin"];
                 vh::trace().emit({{"e", "X"}, {"entry", entry}, {"input", name}, {"outcome", fin == "eof" ? "ok" : fin},
                                   {"ms", ms}, {"size", bytes.size()}});
